@@ -1,4 +1,5 @@
 import CffiVerif.Proofs.TypeParser
+import CffiVerif.Generated.TypeNames
 
 /-!
 C07 — the Python and the C type-string parsers denote the same type (partial).
@@ -142,6 +143,36 @@ theorem spec_order (ms ms' : List Tok) (hp : ms.Perm ms') (hm : ∀ t ∈ ms, is
 
 example : nameOf (parseType exCtx "long unsigned long int".toList) = some "unsigned long long".toList := by
   decide +kernel
+
+/-! ### Tie to the source: the name tables re-extracted from /repo on every run -/
+
+def kwTokName : Kw → String
+  | .bool_ => "TOK__BOOL" | .char_ => "TOK_CHAR" | .complex_ => "TOK__COMPLEX" | .const_ => "TOK_CONST"
+  | .double_ => "TOK_DOUBLE" | .enum_ => "TOK_ENUM" | .float_ => "TOK_FLOAT" | .int_ => "TOK_INT"
+  | .long_ => "TOK_LONG" | .short_ => "TOK_SHORT" | .signed_ => "TOK_SIGNED" | .struct_ => "TOK_STRUCT"
+  | .union_ => "TOK_UNION" | .unsigned_ => "TOK_UNSIGNED" | .void_ => "TOK_VOID" | .volatile_ => "TOK_VOLATILE"
+  | .cdecl_ => "TOK_CDECL" | .stdcall_ => "TOK_STDCALL"
+
+/-- The model's keyword table is the one `next_token` compares against (regenerated from
+src/c/parse_c_type.c). -/
+theorem keyword_table_matches_source :
+    keywordTable.map (fun p => (p.1, kwTokName p.2)) =
+      Generated.TypeNames.keywords.map (fun p => (p.1.toList, p.2)) := by decide +kernel
+
+/-- The model recognises exactly the names `search_standard_typename` recognises. -/
+theorem standard_typenames_match_source :
+    standardTypenames = Generated.TypeNames.standardTypenames.map (·.1.toList) := by decide +kernel
+
+/-- Every primitive name the backend prints (`primitive_name[]` of realize_c_type.c, and `void`)
+is read back by the C parser as the primitive with that name — the leaf case of
+`parse_cname_partial`, checked over the regenerated table. -/
+theorem primitive_names_reparse :
+    ∀ n ∈ "void" :: Generated.TypeNames.primitiveNames,
+      nameOf (parseType { typedefs := [], aggs := [], enums := [], consts := [] } n.toList) = some n.toList := by
+  decide +kernel
+
+example : Generated.TypeNames.primitiveNames.length = 51 ∧ Generated.TypeNames.keywords.length = 18 ∧
+    Generated.TypeNames.standardTypenames.length = 36 := by decide
 
 /-- The divergences inside the property's grammar that the model reproduces (DESIGN §7 row 15):
 more than one level of grouping parentheses and a qualifier between two specifiers are
